@@ -476,6 +476,10 @@ def run(project: Project, rep, tier: str):
     for rn, n in (("LX-COPY", 1), ("LX-SORT", 1), ("LX-ITER", 1), ("LX-DEG", 2), ("LX-NOCOPY", 1), ("LX-INSERT", 1),
                   ("LX-SWEEP", 0 if st_sweep == "unmodelled" else 1)):
         rep.floor(rn, n)
+    if st_sweep == "ok":
+        # the emitted points were compared with the landscape itself: how many of them the site rule recognised is no
+        # longer a reason to call the analysis broken
+        rep.floor("LX-EDGE", 1)
 
 
 def _leaves_loop_after(lp, call) -> bool:
